@@ -453,5 +453,14 @@ def r14_13(ctx):
              "configuration survive", f.loc(loads[0])) if bad or pos else ctx.ok(construct, f.loc(loads[0])))
 
 
+def r14_14(ctx):
+    """R14.14 after a `load` the server holds what the file says: whatever the replacing load did not *set* is unset (C03 R03.10,
+    decided on `_was_set`) - an option the file records as a default only would otherwise keep the user value of the previous
+    configuration, and a fresh server on that file reports the default."""
+    from . import c03
+    from .common import delegate
+    delegate(ctx, c03.r03_10, lambda c: "replacing load" in c)
+
+
 def rules():
-    return [("R14.13", r14_13, 1), ("R14.12", r14_12, 3), ("R14.11", r14_11, 2), ("R14.10", r14_10, 1), ("R14.9", r14_9, 1), ("R14.1", r14_1, 9), ("R14.2", r14_2, 5), ("R14.3", r14_3, 3), ("R14.4", r14_4, 20), ("R14.5", r14_5, 10), ("R14.6", r14_6, 5), ("R14.7", r14_7, 1), ("R14.8", r14_8, 6)]
+    return [("R14.14", r14_14, 1), ("R14.13", r14_13, 1), ("R14.12", r14_12, 3), ("R14.11", r14_11, 2), ("R14.10", r14_10, 1), ("R14.9", r14_9, 1), ("R14.1", r14_1, 9), ("R14.2", r14_2, 5), ("R14.3", r14_3, 3), ("R14.4", r14_4, 20), ("R14.5", r14_5, 10), ("R14.6", r14_6, 5), ("R14.7", r14_7, 1), ("R14.8", r14_8, 6)]
